@@ -20,7 +20,7 @@ def obj_rows(wl):
     return {k: copy.deepcopy(v) for k, v in wl._data.items()}, dict(wl.header)
 
 
-OPS = ['add_entries', 'assign', 'cluster', 'align', 'renumber', 'add_entries_src']
+OPS = ['add_entries', 'assign', 'cluster', 'align', 'renumber', 'add_entries_src', 'etymdict']
 
 
 def run_ops(chk, rng, new, src_obj, nops, log):
@@ -51,6 +51,14 @@ def run_ops(chk, rng, new, src_obj, nops, log):
             elif op == 'align' and hasattr(new, 'align'):
                 new.align()
                 log.append(('align',))
+            elif op == 'etymdict' and 'cogids' in new.header:
+                # read-only views of the cognate sets, with the documented conversion of the ids (loans are coded as negative ids)
+                fn_ = rng.choice([abs, int, lambda x: abs(int(x))])
+                if rng.random() < 0.5:
+                    new.get_etymdict(ref='cogids', modify_ref=fn_)
+                else:
+                    new.get_paps(ref='cogids', modify_ref=fn_)
+                log.append(('get_etymdict / get_paps with modify_ref',))
             elif op == 'add_entries_src' and src_obj is not None:
                 src_obj.add_entries('s%d' % rng.randrange(1000), 'ipa', lambda x: x.upper())
                 log.append(('add_entries on source',))
@@ -100,6 +108,16 @@ def wordlist_clause(chk):
                     toks[j] = rng.choice(['h₂', '?', 'X']) + '/' + toks[j]
                 d[k] = d[k] + [toks]
             chk.hist['source with a tokens column (nested lists)'] += 1
+        if rng.random() < 0.3 and 'cogids' not in d[0]:
+            # partial / fuzzy cognate coding: a list of ids per word (nested cells of the caller), loans with a negative id
+            gi = d[0].index('cogid')
+            d[0] = d[0] + ['cogids']
+            for k in sorted(k for k in d if k != 0):
+                ids_ = [d[k][gi] * 10 + 1] + ([d[k][gi] * 10 + 2] if rng.random() < 0.4 else [])
+                if rng.random() < 0.4:
+                    ids_[-1] = -ids_[-1]
+                d[k] = d[k] + [ids_]
+            chk.hist['source with a list-valued cognate column (negative ids)'] += 1
         if rng.random() < 0.4 and 'alignment' not in d[0]:
             # the header as callers write it: upper case, aliases of the namespace - it belongs to the caller just like the rows
             spell = {'doculect': ['DOCULECT', 'language', 'taxa', 'Taxon'], 'concept': ['CONCEPT', 'gloss', 'Concept'], 'ipa': ['IPA', 'Ipa'],
